@@ -98,6 +98,13 @@ CHECKS = {
              "of these instructions the carrier registers refine the dense interpreter; operands other than in-place targets unchanged. Exact correspondence of whole programs (integer data) incl. per-vector dtypes and exception classes; numpy dense mirror oracle with aliasing checks.",
         ref="§5 C15", technique="Lean 4 proof (refinement / simulation per operation, induction over programs) + exact program correspondence + dense mirror oracle; one OPEN known finding",
         note=NOTE_COMMON + "OPEN FINDING dyad-dtype-lost-without-stored-complex-vector: the complex-flag claims carry the hypothesis Tight (a complex carrier stores a complex vector); Lean proves the negation of the unrestricted claim at the witness. 'Results share no storage' is checked by the harness only."),
+    "C04": dict(
+        text="Lean theorems: (abstract) the contribution Module.sensitivity adds is linear in the seeds and a second call without reset adds it again (n calls: n times), under 'no output is its own input'; "
+             "(executable dispatch model Core/Network.lean) sensitivity() and reset() change no state, response() changes no sensitivity and no state outside its outputs, model-level linearity and doubling. "
+             "Dispatch model tied to core_objects.py by exact correspondence on the 11-operation C04 sequence over random single modules; for every library module family the oracle checks seed linearity, "
+             "doubling and untouched states/seeds on the real code.",
+        ref="§5 C04", technique="Lean 4 proof (linearity of the reverse step; frame lemmas of the dispatch model) + exact correspondence + deep-snapshot oracle on every module family",
+        note=NOTE_COMMON + "Linearity of each library module's hand-written _sensitivity is established per module by C01's adjoint theorems where they exist and otherwise by the oracle (bounded, seeded)."),
 }
 
 NOT_APPLICABLE = {
